@@ -71,3 +71,22 @@ claimed["C15"] = (
     "Outside the claim: max above 2^53 ns (float64(max) may round up past max), attempt numbers above 70, real timers and outages; the reconnect state machine and offline buffer unless their harnesses are listed in the evidence. "
     "math.Pow is evaluated natively on concrete operands (base 2, integral exponent); float->int conversion follows amd64.",
     "5 (C15)")
+
+claimed["C19"] = (
+    "Bounded model checking of the two check-then-wait queues by symbolic execution of the real code under ALL interleavings at synchronisation points (mutex Lock/RLock, channel send/receive/select/close, "
+    "Once, WaitGroup): pollQueue with one consumer poll and 1..2 (quick) / 1..3 (thorough) producers, plus the stale-signal scenario (a leftover wake-up must not make the next poll answer empty); packetQueue with "
+    "a consumer polling in a loop, 1..2 producers and an optional closer. Timers are disabled in these harnesses (a timeout is exactly the unrelated event that must not be needed), so the critical schedule "
+    "'producer runs between the consumer's emptiness check and its wait' is one of the explored paths, not a matter of luck. Asserts at quiescence: consumer not parked while packets are queued, no empty answer, "
+    "every packet delivered or queued exactly once. A happens-before race monitor runs on all shared cells. Counterexample schedules are replayed natively through instrumented copies of the package's files "
+    "(verifSched() gates before every visible operation).",
+    "Bounds: preemption bound 3 (pollQueue) / 2 (packetQueue), <= 60 scheduling decisions per path. Outside the claim: what HTTP does with the poll response, the drain/close handshake of the sender goroutine beyond 'closed is reported', more threads.",
+    "5 (C19)")
+
+claimed["C03"] = (
+    "Bounded model checking + symbolic execution of the ack kernel (reflect.Call etc. through the executor's reflect model): (1) server socket: an ack with timeout whose reply, optionally duplicated, races the "
+    "timer goroutine in EVERY order at synchronisation points: the callback runs exactly once, a winning reply carries its own arguments, no reply => ErrAckTimeout, entry removed, no mutex held, nothing blocked; "
+    "(2) three outstanding acks and a reply with an ARBITRARY symbolic uint64 id, delivered twice: only the callback registered under exactly that id runs, at most once, unknown/duplicate ids reach the error "
+    "handlers; (3) client socket offline: 1..2 (quick) / 1..3 (thorough) buffered emits of 1..3/4 frames with and without acks, the timeout of one fires while it is still buffered: callback exactly once with "
+    "ErrAckTimeout, buffer == frames of the other packets in order, sendBufferMu free, socket still usable.",
+    "Bounds: preemption bound 3. Outside the claim: real timer durations (the claim is about every ORDER), the wire format of ACK packets (C09), the one-reply guard of received events and the client-side race unless listed in the evidence.",
+    "5 (C03)")
